@@ -113,7 +113,7 @@ func check(c Case) pbt.Verdict {
 	budget := 20 * time.Second
 	if relative {
 		// not screened for termination by the reference interpreter: a program that runs long is not compared
-		budget = 3 * time.Second
+		budget = 300 * time.Millisecond // (a runaway non-tail recursion grows the Go stack by ~0.5 GB/s: the context must end well before the 1 GB limit)
 	}
 	ctx, cancel := context.WithTimeout(context.Background(), budget)
 	defer cancel()
@@ -141,7 +141,7 @@ func check(c Case) pbt.Verdict {
 		}
 		return lisp.EVAL(ctx, ast, e)
 	}))
-	if relative && (time.Since(started) > time.Second || (routes[0].r.Err != nil && strings.Contains(routes[0].r.Err.Error(), "timeout"))) {
+	if relative && (time.Since(started) > 250*time.Millisecond || (routes[0].r.Err != nil && strings.Contains(routes[0].r.Err.Error(), "timeout"))) {
 		return pbt.Verdict{Excluded: "model-unspecified-and-long-running", Labels: []string{"excluded:" + why + " (long running)"}}
 	}
 	// R2: READ without cursor, canonical layout
